@@ -143,8 +143,11 @@ pub fn observe_start(w: &Written, src: Source, n: usize, hport: Option<u16>, fau
 }
 
 fn observe_start_once(w: &Written, src: Source, n: usize, hport: Option<u16>, fault: bool) -> Result<StartObs, String> {
+    let t0 = std::time::Instant::now();
+    let timing = std::env::var("VERIF_TIMING").is_ok();
     let mut sp = ServerProc::start(w, src, &[])?;
     let blocks = sp.wait_started(n, Duration::from_secs(20));
+    let t_started = t0.elapsed().as_secs_f64();
     // settle: a dying worker takes a moment to unwind
     std::thread::sleep(Duration::from_millis(30));
     let exited = sp.try_status();
@@ -153,6 +156,7 @@ fn observe_start_once(w: &Written, src: Source, n: usize, hport: Option<u16>, fa
     let reporter_thread = names.iter().any(|x| x.starts_with("stats-reporting"));
     let lt_pk = crypto::public_key(&crypto::unhex(BASE_SEED_HEX).try_into().unwrap());
     let (keys, _sent, bad) = if exited.is_none() { probe_workers(sp.port, &lt_pk, n, 48 * n + 32, fault) } else { (BTreeMap::new(), 0, 0) };
+    let t_probed = t0.elapsed().as_secs_f64();
     // a burst of requests sent back-to-back before any reply is read (every worker's socket holds a
     // queue when it wakes), then every worker must still be alive and serving
     let bsz: usize = w.get("batch_size").and_then(|b| b.parse().ok()).unwrap_or(64);
@@ -197,6 +201,9 @@ fn observe_start_once(w: &Written, src: Source, n: usize, hport: Option<u16>, fa
         stderr_head: se.lines().filter(|l| l.contains("panicked") || l.contains("Error") || l.contains("error")).take(3).map(|s| s.to_string()).collect(),
     };
     sp.kill();
+    if timing && t0.elapsed().as_secs_f64() > 4.0 {
+        eprintln!("    slow point n={} fault={} health={}: started {:.1}s probed {:.1}s total {:.1}s keys {}", n, fault, hport.is_some(), t_started, t_probed, t0.elapsed().as_secs_f64(), obs.serving_keys);
+    }
     Ok(obs)
 }
 
@@ -387,6 +394,7 @@ pub fn run(ctx: &Ctx) -> Result<(), String> {
     if let Some(e) = failed.lock().unwrap().take() {
         return Err(e);
     }
+    ctx.lap("part 1 configuration points done");
     // the repository's own example.cfg, verbatim when its ports are free
     {
         let repo = std::env::var("VERIF_REPO").unwrap_or_else(|_| "/repo".into());
@@ -426,6 +434,7 @@ pub fn run(ctx: &Ctx) -> Result<(), String> {
     }
     let _ = std::fs::remove_dir_all(&pdir);
 
+    ctx.lap("example.cfg done");
     // part 3: all sequences of length <= 5 over {connect_tcp, send(valid), step}
     let hist_n = AtomicU64::new(0);
     let transitions = AtomicU64::new(0);
@@ -492,12 +501,15 @@ pub fn run(ctx: &Ctx) -> Result<(), String> {
     if let Some(e) = failed.lock().unwrap().take() {
         return Err(e);
     }
+    ctx.lap("part 3 health histories done");
     // part 2: start-up schedules under the controlled scheduler
     let sched = crate::sched::c15_startup_schedules(ctx)?;
+    ctx.lap("part 2 start-up schedules done");
     // TLA+ lifecycle model (invariant NoWorkerLostBeforeSignal among others) bound to the
     // implementation by replaying a transition cover of its state graph
     let model = crate::sched::lifecycle_conformance(ctx, 2, true)?;
     ctx.cov("lifecycle_model", model);
+    ctx.lap("lifecycle model done");
 
     ctx.cov("states", json!(classes.lock().unwrap().len() as u64 + hist_n.load(Relaxed) + sched.states));
     ctx.cov("transitions", json!(transitions.load(Relaxed) + sched.transitions + evals.load(Relaxed)));
